@@ -273,11 +273,11 @@ def replay_scalars(a):
     exe = a.cli()
     if not exe:
         return {"reproduced": False, "note": "native build failed"}
-    data = ('i: 12\nn: -3\nf: 1.5\ne: 1e3\ne2: 25e-1\nb: true\nz: null\nt: ~\ns: abc\nqi: "12"\nqb: \'true\'\nqz: "null"\nqf: "1.5"\nblk: |\n  12\n'
+    data = ('i: 12\nn: -3\nf: 1.5\ne: 1e3\ne2: 25e-1\nb: true\nz: null\nt: ~\ns: abc\nqi: "12"\nqb: \'true\'\nqz: "null"\nqf: "1.5"\nblk: |\n  12\nblk2: |-\n  12\nblk3: >-\n  true\nblk4: |-\n  null\n'
             'j: {"i": 7, "s": "7", "b": false, "z": null}\n')
     cases = [("i is_int", "PASS"), ("n is_int", "PASS"), ("f is_float", "PASS"), ("b is_bool", "PASS"), ("z is_null", "PASS"),
              ("t is_null", "PASS"), ("s is_string", "PASS"), ("qi is_string", "PASS"), ("qb is_string", "PASS"), ("qz is_string", "PASS"),
-             ("qf is_string", "PASS"), ("blk is_string", "PASS"), ("i == 12", "PASS"), ("qi == \"12\"", "PASS"), ("qi == 12", "FAIL"),
+             ("qf is_string", "PASS"), ("blk is_string", "PASS"), ("blk2 is_string", "PASS"), ("blk2 == \"12\"", "PASS"), ("blk3 is_string", "PASS"), ("blk4 is_string", "PASS"), ("i == 12", "PASS"), ("qi == \"12\"", "PASS"), ("qi == 12", "FAIL"),
              ("j.i is_int", "PASS"), ("j.s is_string", "PASS"), ("j.b is_bool", "PASS"), ("j.z is_null", "PASS"), ("f is_int", "FAIL"),
              ("i is_float", "FAIL"), ("b is_string", "FAIL"), ("e is_float", "PASS"), ("e == 1000.0", "PASS"), ("e2 == 2.5", "PASS"),
              ("j.i == 7", "PASS")]
